@@ -1015,6 +1015,11 @@ func runC13(t *testing.T, rep *mc.Reporter) {
 				}
 				scn := c13Scenario{Writes: ws, Cfg: m, WrapSingle: wrap}
 				mc.RunScenario(rep, scn, bound, budget, func(ch *mc.Chooser) mc.Result { return c13Exec(t, scn, ch) })
+				// crossed with the key prefix white list: the expiry DEL of the old marker and the new
+				// marker both lie in the namespace the link's key filter rejects
+				swl := scn
+				swl.Whitelist = true
+				mc.RunScenario(rep, swl, bound, budget, func(ch *mc.Chooser) mc.Result { return c13Exec(t, swl, ch) })
 			}
 		}
 	}
